@@ -418,7 +418,7 @@ def generate(repo):
     consts = {k: const_int(axml_t, k) for k in (
         "RES_XML_FIRST_CHUNK_TYPE", "RES_XML_LAST_CHUNK_TYPE", "RES_XML_RESOURCE_MAP_TYPE",
         "RES_XML_START_NAMESPACE_TYPE", "RES_XML_END_NAMESPACE_TYPE", "RES_XML_START_ELEMENT_TYPE",
-        "RES_XML_END_ELEMENT_TYPE", "RES_XML_CDATA_TYPE")}
+        "RES_XML_END_ELEMENT_TYPE", "RES_XML_CDATA_TYPE", "RES_TABLE_PACKAGE_TYPE")}
     hdr = next(n for n in axml_t.body if isinstance(n, ast.ClassDef) and n.name == "ARSCHeader")
     size_node = next(n for n in hdr.body if isinstance(n, ast.Assign) and n.targets[0].id == "SIZE")
     hdr_size = int(eval(compile(ast.Expression(size_node.value), "<const>", "eval"), {"__builtins__": {}}))
